@@ -19,6 +19,8 @@ pub enum Corruption {
     Burst { page: u8, start: u16, len: u8, pattern: u32 },
     /// overwrite `len` bytes at `start` with pseudo random bytes
     Overwrite { page: u8, start: u16, len: u8, seed: u64 },
+    /// store the page's checksum bytes in reversed (little-endian) order
+    ChecksumReversed { page: u8 },
 }
 
 #[derive(Clone, Serialize, Deserialize)]
@@ -81,6 +83,13 @@ pub fn apply(bytes: &[u8], c: &Corruption) -> (Vec<u8>, bool) {
                 }
             }
             (b, true)
+        }
+        Corruption::ChecksumReversed { page } => {
+            let base = (*page as usize % pages) * 1024;
+            b[base + 1020..base + 1024].reverse();
+            let changed = b[base + 1020..base + 1024] != bytes[base + 1020..base + 1024];
+            // at most 32 bits within one page change: must be detected
+            (b, changed)
         }
         Corruption::Overwrite { page, start, len, seed } => {
             let base = (*page as usize % pages) * 1024;
@@ -197,7 +206,7 @@ impl Check for C07 {
     }
     fn rule() -> String {
         "Small files (a few pages) from the writer generator x corruptions: EVERY single-bit flip of every page of enumerated files (exhaustive per \
-         page, payload and checksum bytes alike), sampled 2- and 3-bit flips within a page, bursts of <= 32 bits, random overwrites of 1..64 bytes. \
+         page, payload and checksum bytes alike), sampled 2- and 3-bit flips within a page, bursts of <= 32 bits, random overwrites of 1..64 bytes, checksum bytes stored in reversed order. \
          Ground truth per page is e57ref's bit-serial CRC-32C (so an overwrite that leaves a page valid is handled soundly). Assertions: freshly \
          written pages carry the big-endian CRC-32C of their payload; validate_crc fails iff >= 1 page is altered; <= 3-bit flips and <= 32-bit \
          bursts are always detected; after opening the altered file every read operation (XML, descriptors, raw + simple iteration of every cloud, \
@@ -224,6 +233,7 @@ impl Check for C07 {
             for page in 0..8u8 {
                 out.push(Case::AllBits { program: p.clone(), page });
             }
+            out.push(Case::Sampled { program: p.clone(), corruptions: (0..8u8).map(|page| Corruption::ChecksumReversed { page }).collect() });
         }
         out.push(Case::Backends { seed: 7, n: t.pick(300, 5000) as u32 });
         // other page sizes (validate_crc and raw_xml take the page size from the header)
@@ -242,13 +252,14 @@ impl Check for C07 {
         let program = small_program(s);
         let n = 1 + s.below(6) as usize;
         let corruptions = (0..n)
-            .map(|_| match s.weighted(&[4, 3, 3]) {
+            .map(|_| match s.weighted(&[4, 3, 3, 1]) {
                 0 => {
                     let k = 2 + s.below(2) as usize;
                     Corruption::Bits { page: s.byte(), bits: (0..k).map(|_| s.u16()).collect() }
                 }
                 1 => Corruption::Burst { page: s.byte(), start: s.u16(), len: s.byte(), pattern: s.u32() },
-                _ => Corruption::Overwrite { page: s.byte(), start: s.u16(), len: s.byte(), seed: s.u64() },
+                2 => Corruption::Overwrite { page: s.byte(), start: s.u16(), len: s.byte(), seed: s.u64() },
+                _ => Corruption::ChecksumReversed { page: s.byte() },
             })
             .collect();
         Case::Sampled { program, corruptions }
@@ -356,6 +367,7 @@ impl Check for C07 {
                         Corruption::Bits { .. } => v.nt("multi_bit_flip"),
                         Corruption::Burst { .. } => v.nt("burst"),
                         Corruption::Overwrite { .. } => v.nt("overwrite"),
+                        Corruption::ChecksumReversed { .. } => v.nt("checksum_reversed"),
                     }
                     if let Err(e) = check_altered(&b, &alt, md, &format!("{c:?}")) {
                         v.fail(e);
